@@ -72,7 +72,8 @@ pub fn lib_encode_into(msg: &StunMessage, buf: &mut [u8], padding: Option<u8>) -
 }
 
 pub fn lib_encode(msg: &StunMessage, buf_len: usize, padding: Option<u8>) -> Result<Vec<u8>, String> {
-    let mut buf = vec![0u8; buf_len];
+    // a dirty buffer: whatever the encoder does not write shows up in the comparison with the reference bytes
+    let mut buf = vec![0xA5u8; buf_len];
     let n = lib_encode_into(msg, &mut buf, padding)?;
     if n > buf.len() {
         return Err(format!("returned size {} exceeds buffer {}", n, buf.len()));
